@@ -452,6 +452,40 @@ func checkPacket(t failer, c pktCase, fullSweep bool) (st sweepStats) {
 			}
 		}
 	}
+	// fields inserted in front of the authenticator, and the authenticator's own (unauthenticated) length field
+	// enlarged by as much: the authenticated bytes are no longer "exactly the header and extension bytes that precede"
+	// the authenticator - the packet must not pass, neither for the outstanding request nor, with a foreign
+	// identifier inserted, as the answer to a different one
+	{
+		otherID := bytesOf(c.Seed+5151, 32)
+		mk := func(typ uint16, body []byte) []byte {
+			f := make([]byte, 4+pad4(len(body)))
+			binary.BigEndian.PutUint16(f, typ)
+			binary.BigEndian.PutUint16(f[2:], uint16(len(f)))
+			copy(f[4:], body)
+			return f
+		}
+		for what, ins := range map[string][]byte{
+			"a unique identifier field": mk(0x104, otherID),
+			"a cookie field":            mk(0x204, bytesOf(c.Seed+5252, 124)),
+			"a placeholder field":       mk(0x304, make([]byte, 124)),
+			"an unknown field":          mk(0x7f01, bytesOf(c.Seed+5353, 16)),
+		} {
+			m2 := append(append(bytes.Clone(b[:l.authPos]), ins...), b[l.authPos:]...)
+			ap := l.authPos + len(ins)
+			binary.BigEndian.PutUint16(m2[ap+2:], binary.BigEndian.Uint16(m2[ap+2:])+uint16(len(ins)))
+			for _, id := range [][]byte{reqID, otherID} {
+				v := real(m2, key, id)
+				st.fieldEdits++
+				if v.panicked != nil {
+					t.Fatalf("%s with %s inserted in front of the authenticator (its length field enlarged by as much): panic %v", c.Kind, what, v.panicked)
+				}
+				if v.accepted {
+					t.Fatalf("%s with %s inserted in front of the authenticator (and the authenticator's length field enlarged by as much) was accepted: what is authenticated is not what precedes the authenticator", c.Kind, what)
+				}
+			}
+		}
+	}
 	// truncation where the cut-off bytes are zero: re-seal with other nonces until the tag ends in a zero byte
 	if c.Nonce == 0 {
 		for n := uint64(1); n < 4000; n++ {
